@@ -34,6 +34,15 @@ pub fn run(rng: &mut Rng, n: usize, out: &mut Out, which: &str) {
         } else {
             let a = out.run(&mut st, &format!("qmoves {}", bt));
             if i <= 2 { out.sample(format!("qmoves {} => {}", bt, a)); }
+            // the selection made INSIDE search_until_quiet must not depend on what that searcher did before: now and then
+            // a burst of searches cut off by a deadline inside deep quiescence precedes the observation
+            if i % 9 == 4 {
+                for k in 0..8u64 {
+                    let tb = if k % 2 == 0 { crate::board::Board::new("r3k2r/p1ppqpb1/bn2pnp1/3PN3/1p2P3/2N2Q1p/PPPBBPPP/R3K2R w KQkq - 0 1") } else { crate::board::Board::new("q3k2q/8/8/3QQ3/3qq3/8/8/Q3K2Q w - - 0 1") };
+                    out.run(&mut st, &format!("qstress {} {} {}", board_text(&tb), 2 + k % 2, 40 + 37 * k + rng.below(200)));
+                    out.count("interrupted_searches_before_observation");
+                }
+            }
             out.run(&mut st, &format!("qset {}", bt));
         }
     }
